@@ -218,7 +218,8 @@ impl Property for C09 {
             let dirs: Vec<String> = dirs_of(&spec).into_iter().filter(|d| d.contains('/') && !d.contains(crate::tree::RAW_SENTINEL)).collect();
             if !dirs.is_empty() {
                 starts = vec![format!("{}/..", rng.pick(&dirs))];
-                mindepth1 = true;
+                // with or without the starting point itself (whose basename is `..`)
+                mindepth1 = rng.chance(1, 2);
             }
         }
         let ntempl = rng.small(0, 4);
@@ -342,7 +343,7 @@ impl Property for C09 {
         if sc.templates.iter().all(|t| !t.contains("{}")) {
             rep.probe("no_placeholder_at_all");
         }
-        if sc.mindepth1 {
+        if sc.starts.iter().any(|s| s.ends_with("/..")) {
             rep.probe("starting_point_spelled_through_dot_dot");
         }
         if let Some((dir2, _)) = &sc.second {
